@@ -265,9 +265,28 @@ class BaseVersion(object):
         # type: (Any) -> bool
         return self._compare(other) > 0
 
+    _re_digit_run = re.compile(r"([0-9]+)")
+
+    @classmethod
+    def _hash_key_part(cls, part):
+        # type: (str) -> Any
+        # Versions that compare equal may be spelled differently ("1.0" vs
+        # "1.00", "1.0" vs "1.0-0"): reduce each part to its alternating
+        # (non-digit run, number) pairs, which is what the comparison looks at.
+        pieces = cls._re_digit_run.split(part)
+        pairs = [(pieces[i], int(pieces[i + 1]))
+                 for i in range(0, len(pieces) - 1, 2)]
+        if pieces[-1]:
+            pairs.append((pieces[-1], 0))
+        while pairs and pairs[-1] == ("", 0):
+            pairs.pop()
+        return tuple(pairs)
+
     def __hash__(self):
         # type: () -> int
-        return hash(str(self))
+        return hash((int(self.epoch or "0"),
+                     self._hash_key_part(self.upstream_version or "0"),
+                     self._hash_key_part(self.debian_revision or "0")))
 
 
 class AptPkgVersion(BaseVersion):
